@@ -504,6 +504,18 @@ func runC06(c *mon.Ctx) {
 			default:
 				s = `{"psa-client-id":` + strings.Repeat("9", n) + `}`
 			}
+			if kind == 5 {
+				// every member name TWICE (well-formed JSON; the last occurrence counts)
+				var sb strings.Builder
+				sb.WriteString("{")
+				for rep := 0; rep < 2; rep++ {
+					for i := 0; i < n/16; i++ {
+						fmt.Fprintf(&sb, `"k%d":%d,`, i, rep)
+					}
+				}
+				sb.WriteString(`"z":0}`)
+				m.run("json", "width:json:every-member-twice", []byte(sb.String()))
+			}
 			m.run("json", fmt.Sprintf("width:json:%d", kind), []byte(s))
 			s2 := `{"psa-software-components":` + "[" + strings.Repeat("{},", n/3) + "{}]" + "}"
 			m.run("json", "width:json:components", []byte(s2))
